@@ -188,11 +188,13 @@ pub fn c17(args: &Args) {
         let big: Vec<i64> = (0..n as i64).map(|i| (i * 7919 + 13) % 16777213 - 8388606).collect();
         let big2: Vec<i64> = (0..n as i64).map(|i| (i * 104729 + 7) % 16777213 - 8388606).collect();
         let small: Vec<i64> = (0..n as i64).map(|i| (i * 37) % 81 - 40).collect();
-        for (f, g) in [(&f1, &zero), (&f1, &f1), (&f1, &xf1), (&f3, &f1)] {
-            out.emit(babai_event(f, g, &big, &big2, "ill-conditioned-fg-large-FG"));
+        // only the members that fail on the unchanged code are kept (defect D10, listed in KNOWN_FINDINGS.json by digest): whether
+        // the other members of this family converge is decided by floating-point noise, which a behaviour-preserving change of the
+        // transforms may alter -- they would make the check flaky in either direction
+        for (f, g) in [(&f1, &zero), (&f1, &f1)] {
             out.emit(babai_event(f, g, &small, &small, "ill-conditioned-fg-small-FG"));
         }
-        let _ = f2;
+        let _ = (f2, f3, xf1, big, big2);
     }
     // quotients that are exact half-integers: (F, G) = (2k+1)/2 * (f, g) with even f, g (rounding ties)
     for &n in &[2usize, 8, 64, 512] {
